@@ -9,6 +9,8 @@ package main
 import (
 	"fmt"
 	"os"
+	"strconv"
+	"strings"
 	"time"
 
 	"verif/crashfs"
@@ -33,7 +35,21 @@ var histories = [][]opT{
 // every other mutation is, and partially written data is covered by byte budgets for the last interval.
 var largeHistory = []opT{{"apply", 1}, {"apply", 8}, {"apply", 0}, {"delete-temp", 0}, {"delete-temp", 0}}
 
+// Systematic part: from each start state (the node after one of sysPrefixes) EVERY sequence of <= D operations over
+// sysAlphabet is a history of its own, and every file-system mutation boundary of its last D operations is a crash
+// point (the crash points of the prefix are those of a shorter history). Sequences in which the fault-free reference
+// run refuses an operation (delete of the genesis or of a finalized block, ...) are counted and skipped.
+var sysPrefixes = [][]opT{
+	{},
+	{{"apply", 0}, {"apply", 2}, {"apply", 4}, {"apply", 0}},
+	{{"apply", 1}, {"apply", 0}, {"apply", 0}},
+	{{"apply", 2}, {"delete-temp", 0}, {"apply", 6}, {"apply", 0}, {"apply", 0}},
+}
+var sysAlphabet = []opT{{"apply", 0}, {"apply", 1}, {"apply", 2}, {"apply", 3}, {"apply", 4}, {"apply", 5}, {"apply", 6}, {"apply", 7},
+	{"delete", 0}, {"delete-temp", 0}, {"clear-temp", 0}}
+
 type caseT struct {
+	Ops     []opT  `json:"ops,omitempty"` // systematic part: the whole history (History = -1)
 	History int    `json:"history"`
 	CrashAt int    `json:"crash_at_mutation"`
 	Policy  string `json:"policy"`
@@ -117,6 +133,131 @@ func structural(n *node.Node) []string {
 	return bad
 }
 
+type job struct {
+	hi, k  int
+	policy string
+	refs   []string
+	bounds []int
+	gts    uint32
+	coarse bool
+	tail   int
+}
+
+func mkCase(h []opT, j job, completed int) caseT {
+	c := caseT{History: j.hi, CrashAt: j.k, Policy: j.policy, Op: completed, Tail: j.tail}
+	if j.hi < 0 {
+		c.Ops = h
+	}
+	return c
+}
+
+// reference runs h without a crash and returns the dump hash after each completed operation, the mutation count
+// at each operation boundary and the genesis timestamp; ok=false when an operation is refused.
+func reference(h []opT) (refs []string, bounds []int, gts uint32, ok bool) {
+	w := crashfs.NewWorld()
+	sess := w.NewSession(0, false)
+	n, err := node.New(cfgFor(sess, false, 0, false))
+	if err != nil {
+		panic(err)
+	}
+	defer n.Close()
+	gts = n.Genesis.Header.Timestamp
+	refs = []string{node.DumpHash(n.CanonicalDump())}
+	bounds = []int{sess.Count()}
+	for _, o := range h {
+		perr := ""
+		if p := vlib.Catch(func() {
+			if e := doOp(n, o); e != nil {
+				perr = e.Error()
+			}
+		}); p != "" {
+			perr = p
+		}
+		if perr != "" {
+			return nil, nil, 0, false
+		}
+		refs = append(refs, node.DumpHash(n.CanonicalDump()))
+		bounds = append(bounds, sess.Count())
+	}
+	return refs, bounds, gts, true
+}
+
+func runCase(r *vlib.Run, h []opT, j job) {
+	if r.Expired() {
+		r.Cap("deadline")
+		return
+	}
+	w := crashfs.NewWorld()
+	sess := w.NewSession(j.k, j.policy == "torn")
+	if j.coarse {
+		sess = w.NewCoarseSession(j.k, j.tail)
+	}
+	n, err := node.New(cfgFor(sess, false, j.gts, j.coarse))
+	completed := 0
+	if err == nil {
+		for _, o := range h {
+			if sess.Dead() {
+				break
+			}
+			perr := ""
+			if p := vlib.Catch(func() {
+				if e := doOp(n, o); e != nil {
+					perr = e.Error()
+				}
+			}); p != "" {
+				perr = p
+			}
+			if sess.Dead() {
+				break
+			}
+			if perr != "" {
+				r.Violation("history-op-failed-without-crash", perr, mkCase(h, j, completed))
+				return
+			}
+			completed++
+		}
+	}
+	sess.Kill()
+	if j.policy == "lost" {
+		w.LoseUnsynced()
+	}
+	r.Add("evaluations", 1)
+	c := mkCase(h, j, completed)
+	// restart
+	s2 := w.NewSession(0, false)
+	var n2 *node.Node
+	if p := vlib.Catch(func() { n2, err = node.New(cfgFor(s2, true, j.gts, j.coarse)) }); p != "" || err != nil {
+		r.Violation(fmt.Sprintf("restart-fails:h%d", j.hi), fmt.Sprintf("node does not restart after a crash before mutation %d (%s, during op %d): %v %s", j.k, j.policy, completed, err, p), c)
+		return
+	}
+	got := node.DumpHash(n2.CanonicalDump())
+	// ops 0..completed-1 were acknowledged; op `completed` was in flight (if any)
+	match := -1
+	for i, ref := range j.refs {
+		if ref == got {
+			match = i
+		}
+	}
+	inflight := completed < len(h)
+	okSet := got == j.refs[completed] || (inflight && got == j.refs[completed+1])
+	if j.k <= j.bounds[0] {
+		// crash while the genesis block is being written: genesis absent (re-created on restart) or complete
+		okSet = got == j.refs[0]
+	}
+	switch {
+	case match < 0:
+		r.Violation(fmt.Sprintf("partial-state:h%d:%s", j.hi, j.policy), fmt.Sprintf("recovered database equals no state between operations (crash before mutation %d, %s, %d ops acknowledged, in flight: %v)", j.k, j.policy, completed, inflight), c)
+	case !okSet:
+		r.Violation(fmt.Sprintf("wrong-prefix:h%d:%s", j.hi, j.policy), fmt.Sprintf("recovered state is the one after %d ops but %d ops had been acknowledged (crash before mutation %d, %s)", match, completed, j.k, j.policy), c)
+	default:
+		r.AddMap("recovered_to", fmt.Sprintf("%s:%s", j.policy, map[bool]string{true: "all-of-in-flight-op", false: "none-of-in-flight-op"}[match == completed+1 && inflight]), 1)
+	}
+	if bad := structural(n2); len(bad) > 0 {
+		r.Violation(fmt.Sprintf("structure:h%d:%s", j.hi, j.policy), fmt.Sprintf("after a crash before mutation %d (%s): %v", j.k, j.policy, bad), c)
+	}
+	n2.Close()
+}
+
 func main() {
 	r := vlib.Start("C13", "fault_enumeration", 4*time.Minute, 20*time.Minute)
 	r.Assume("crash model: the process dies just before the k-th file-system mutation (create, write, sync, rename, remove, link, mkdir, directory sync) issued by pebble; unsynced data is then (a) lost entirely incl. unsynced directory entries, (b) entirely on disk, (c) on disk with the last write torn in half")
@@ -124,15 +265,6 @@ func main() {
 	hs := append(append([][]opT{}, histories...), largeHistory)
 	large := len(hs) - 1
 	r.Assume("history with write batches above 4 MiB (coarse mode): crash points are all file-system mutations other than Write; for the data written since the previous crash point three outcomes are enumerated per point (none of it, all of it, the first b bytes for the listed fractions b of its length)")
-	type job struct {
-		hi, k  int
-		policy string
-		refs   []string
-		bounds []int
-		gts    uint32
-		coarse bool
-		tail   int
-	}
 	jobs := []job{}
 	for hi, h := range hs {
 		// reference run: state after each completed op and the mutation count at each op boundary
@@ -194,81 +326,81 @@ func main() {
 			jobs = nj
 		}
 	}
-	r.RunSharded(len(jobs), func(ji int) {
-		j := jobs[ji]
+	// ---- systematic histories ----
+	depth := 2
+	if r.Thorough() {
+		depth = 3
+	}
+	items := []string{}
+	for ji := range jobs {
+		items = append(items, "j"+strconv.Itoa(ji))
+	}
+	if r.ReplayPath == "" {
+		var rec func(pi int, seq []int)
+		rec = func(pi int, seq []int) {
+			if len(seq) > 0 {
+				parts := make([]string, len(seq))
+				for i, a := range seq {
+					parts[i] = strconv.Itoa(a)
+				}
+				items = append(items, fmt.Sprintf("s|%d|%s", pi, strings.Join(parts, ",")))
+			}
+			if len(seq) == depth {
+				return
+			}
+			for a := range sysAlphabet {
+				rec(pi, append(append([]int{}, seq...), a))
+			}
+		}
+		for pi := range sysPrefixes {
+			rec(pi, nil)
+		}
+	} else {
+		var c caseT
+		if err := r.ReadReplay(&c); err == nil && c.History < 0 {
+			// replay of a systematic case: run exactly that case
+			items = nil
+			refs, bounds, gts, ok := reference(c.Ops)
+			if ok {
+				runCase(r, c.Ops, job{-1, c.CrashAt, c.Policy, refs, bounds, gts, false, -1})
+			}
+		}
+	}
+	r.Set("systematic_depth", depth)
+	r.RunItems(items, func(it string) {
+		if it[0] == 'j' {
+			ji, _ := strconv.Atoi(it[1:])
+			runCase(r, hs[jobs[ji].hi], jobs[ji])
+			return
+		}
+		f := strings.Split(it, "|")
+		pi, _ := strconv.Atoi(f[1])
+		h := append([]opT{}, sysPrefixes[pi]...)
+		for _, a := range strings.Split(f[2], ",") {
+			ai, _ := strconv.Atoi(a)
+			h = append(h, sysAlphabet[ai])
+		}
 		if r.Expired() {
-			r.Cap("deadline")
+			r.Cap("deadline (systematic histories)")
 			return
 		}
-		w := crashfs.NewWorld()
-		sess := w.NewSession(j.k, j.policy == "torn")
-		if j.coarse {
-			sess = w.NewCoarseSession(j.k, j.tail)
-		}
-		n, err := node.New(cfgFor(sess, false, j.gts, j.coarse))
-		completed := 0
-		if err == nil {
-			for _, o := range hs[j.hi] {
-				if sess.Dead() {
-					break
-				}
-				perr := ""
-				if p := vlib.Catch(func() {
-					if e := doOp(n, o); e != nil {
-						perr = e.Error()
-					}
-				}); p != "" {
-					perr = p
-				}
-				if sess.Dead() {
-					break
-				}
-				if perr != "" {
-					r.Violation("history-op-failed-without-crash", perr, caseT{j.hi, j.k, j.policy, completed, j.tail})
-					return
-				}
-				completed++
-			}
-		}
-		sess.Kill()
-		if j.policy == "lost" {
-			w.LoseUnsynced()
-		}
-		r.Add("evaluations", 1)
-		c := caseT{j.hi, j.k, j.policy, completed, j.tail}
-		// restart
-		s2 := w.NewSession(0, false)
-		var n2 *node.Node
-		if p := vlib.Catch(func() { n2, err = node.New(cfgFor(s2, true, j.gts, j.coarse)) }); p != "" || err != nil {
-			r.Violation(fmt.Sprintf("restart-fails:h%d", j.hi), fmt.Sprintf("node does not restart after a crash before mutation %d (%s, during op %d): %v %s", j.k, j.policy, completed, err, p), c)
+		refs, bounds, gts, ok := reference(h)
+		if !ok {
+			r.Add("systematic_histories_refused_by_reference_run", 1)
 			return
 		}
-		got := node.DumpHash(n2.CanonicalDump())
-		// ops 0..completed-1 were acknowledged; op `completed` was in flight (if any)
-		match := -1
-		for i, ref := range j.refs {
-			if ref == got {
-				match = i
+		r.Add("systematic_histories", 1)
+		r.AddMap("systematic_histories_by_length", strconv.Itoa(len(h)-len(sysPrefixes[pi])), 1)
+		// crash points of the last operation only: a sequence's earlier operations are the last operation of a shorter
+		// sequence from the same start state, so every mutation boundary of every sequence is covered exactly once
+		N := bounds[len(bounds)-1]
+		from := bounds[len(h)-1] + 1
+		for k := from; k <= N; k++ {
+			for _, p := range []string{"lost", "survived", "torn"} {
+				r.Add("systematic_cases", 1)
+				runCase(r, h, job{-1, k, p, refs, bounds, gts, false, -1})
 			}
 		}
-		inflight := completed < len(hs[j.hi])
-		okSet := got == j.refs[completed] || (inflight && got == j.refs[completed+1])
-		if j.k <= j.bounds[0] {
-			// crash while the genesis block is being written: genesis absent (re-created on restart) or complete
-			okSet = got == j.refs[0]
-		}
-		switch {
-		case match < 0:
-			r.Violation(fmt.Sprintf("partial-state:h%d:%s", j.hi, j.policy), fmt.Sprintf("recovered database equals no state between operations (crash before mutation %d, %s, %d ops acknowledged, in flight: %v)", j.k, j.policy, completed, inflight), c)
-		case !okSet:
-			r.Violation(fmt.Sprintf("wrong-prefix:h%d:%s", j.hi, j.policy), fmt.Sprintf("recovered state is the one after %d ops but %d ops had been acknowledged (crash before mutation %d, %s)", match, completed, j.k, j.policy), c)
-		default:
-			r.AddMap("recovered_to", fmt.Sprintf("%s:%s", j.policy, map[bool]string{true: "all-of-in-flight-op", false: "none-of-in-flight-op"}[match == completed+1 && inflight]), 1)
-		}
-		if bad := structural(n2); len(bad) > 0 {
-			r.Violation(fmt.Sprintf("structure:h%d:%s", j.hi, j.policy), fmt.Sprintf("after a crash before mutation %d (%s): %v", j.k, j.policy, bad), c)
-		}
-		n2.Close()
 	})
 	r.Set("distinct_nontrivial", r.Get("evaluations"))
 	r.Set("rule", "one case per (history, k, policy): k ranges over every file-system mutation boundary of the reference run (+1 = no crash); every case is distinct; each re-executes the history on a fresh strict in-memory FS, dies before mutation k, applies the policy, reopens pebble, restarts Chain+Executer and compares the canonical DB dump with the reference dumps after each operation, then checks the height index, chain links, diff keys and that the node extends its tip")
